@@ -115,6 +115,8 @@ func runC09(c *Ctx) {
 		}
 	}
 	nullKeys, dupAcross := false, map[string]int{}
+	var partialCur int64
+	var partialLeft int
 	for i := 0; i < k; i++ {
 		rows := c10GenRows(r, sizes[i], i*1000000)
 		// shape the primary key ranges
@@ -144,11 +146,17 @@ func runC09(c *Ctx) {
 			}
 			v := base + int64(r.Intn(int(span)))
 			if overlap == "partial" {
-				// input i covers first-key values [i*120, i*120+size/8): 8 ties per value
-				v = int64(i*120 + j/8)
-				if j%8 == 0 && r.Bool() {
-					v = int64(i*120 + r.Intn(sizes[i]/8+1))
+				// runs of ties on the first key of length 1, 8, 200 or 700 (spanning several small
+				// pages); input i starts 3 values after input i-1 so the inputs overlap partially
+				if j == 0 {
+					partialCur, partialLeft = int64(i*3), 0
 				}
+				if partialLeft == 0 {
+					partialCur++
+					partialLeft = gen.Pick(r, []int{1, 8, 200, 700})
+				}
+				partialLeft--
+				v = partialCur
 			}
 			row.K1 = v
 			if row.K2 != nil {
